@@ -292,6 +292,7 @@ impl Property for C11 {
                 head: true,
                 interrupt_at_probe: None,
                 file: ctx.file("c11-follow.txt").to_string_lossy().to_string(),
+                used_handle: 0,
             };
             let out = match crate::follow_child::run_follow(ctx, &job) {
                 Ok(o) => o,
